@@ -2,7 +2,7 @@
    Directives: ExtrOcamlBasic only (bool, option, unit, list, prod, sumbool, comparison
    mapped to the OCaml types of the same meaning).  N, positive, nat and Byte.byte stay the
    extracted inductive types; there is no Extract Constant and no further Extract Inductive. *)
-From Ztyp Require Import Base Bitlen Bitfields Tree Merkleize Types Spec Reader View Mut Heap Iter Codec Conv VMach IO IOChain Alloc FlatAlloc Extras.
+From Ztyp Require Import Base Bitlen Bitfields Tree Merkleize Types Spec Reader View Mut Heap Iter Codec Conv VMach IO IOChain Alloc FlatAlloc Extras TreePath.
 Require Extraction.
 Require ExtrOcamlBasic.
 Extraction Language OCaml.
@@ -13,7 +13,7 @@ Extraction "model.ml"
   g_bit_iter biter_next g_path g_little_endian g_big_endian g_left_aligned to_gindex64
   byte_bit_index get_bit set_bit is_zero_bitlist covers bitlist_len bitlist_check
   bitlist_ones_count bitvector_check bitvector_ones_count
-  root_of getter setter summarize fill_to_depth fill_to_length fill_to_contents
+  root_of getter setter summarize summarize_path get_path set_path fill_to_depth fill_to_length fill_to_contents
   merkleize mixin fields_htr complex_vector_htr complex_list_htr uint8_vector_htr
   uint8_list_htr uint64_vector_htr uint64_list_htr byte_vector_htr byte_list_htr
   bit_vector_htr bit_list_htr union_htr
